@@ -250,7 +250,13 @@ class Inliner:
         if isinstance(stmt, ast.If):
             # `if _helper(x) and ...:` - the helper's value is computed first anyway: name it, then test the name
             first = self._first_helper_call(stmt.test)
-            if first is not None and all(_simple(a) for a in list(first.args) + [k.value for k in first.keywords]):
+            one_liner = False
+            if first is not None:
+                callee_body = [st for st in self._callee(first)[1].body
+                               if not (isinstance(st, ast.Expr) and isinstance(st.value, ast.Constant) and isinstance(st.value.value, str))]
+                one_liner = len(callee_body) == 1 and isinstance(callee_body[0], ast.Return)   # expanded in place later
+            if first is not None and not one_liner \
+                    and all(_simple(a) for a in list(first.args) + [k.value for k in first.keywords]):
                 self._if_counter = getattr(self, "_if_counter", 0) + 1
                 name = f"{self._callee(first)[0].split('.')[-1].lstrip('_')}__value{self._if_counter}"
                 assign = ast.copy_location(ast.Assign(targets=[ast.Name(id=name, ctx=ast.Store())], value=first), stmt)
